@@ -49,9 +49,18 @@ def udq_to_matrix(d):
 
 REPS = {
     # name: (from_matrix, mul, inv, to_matrix(reference), back-conversions [(label, fn -> matrix)])
-    'SO3': (lambda T: sm().SO3(T[:3, :3]), None, lambda a: a.inv(), lambda a: a.data[0], []),
+    # (conversions applied to COMPUTED objects -- products, inverses, whose arrays may be views or Fortran-ordered -- not only to
+    #  freshly constructed ones: convert(X*Y), convert(X.inv()))
+    'SO3': (lambda T: sm().SO3(T[:3, :3]), None, lambda a: a.inv(), lambda a: a.data[0],
+            [('UnitQuaternion(SO3 result)', lambda a: sm().UnitQuaternion(a).R),
+             ('SE3.SO3(SO3 result)', lambda a: sm().SE3.SO3(a).R), ('SO3.Exp(SO3 result.log())', lambda a: sm().SO3.Exp(a.log(twist=True)).A),
+             ('r2q(SO3 result.A)', lambda a: ref.f64(ref.q2r(__import__('spatialmath.base', fromlist=['x']).r2q(a.A)))),
+             ('SO3(SO3 result.A.T).inv()', lambda a: sm().SO3(a.A.T).inv().A)]),
     'SE3': (lambda T: sm().SE3(T), None, lambda a: a.inv(), lambda a: a.data[0],
-            [('SE3.R', lambda a: ref.rt2tr(a.R, a.t)), ('SE3.Ad_free', None)]),
+            [('SE3.R', lambda a: ref.rt2tr(a.R, a.t)), ('SE3.Ad_free', None),
+             ('UnitQuaternion(SE3 result)', lambda a: ref.rt2tr(sm().UnitQuaternion(a).R, a.t)), ('SE3 result.Twist3().SE3()', lambda a: a.Twist3().SE3().A),
+             ('UnitDualQuaternion(SE3 result).SE3()', lambda a: sm().UnitDualQuaternion(a).SE3().A),
+             ('SE3.Exp(SE3 result.log())', lambda a: sm().SE3.Exp(a.log(twist=True)).A)]),
     'UQ': (lambda T: sm().UnitQuaternion(sm().SO3(T[:3, :3])), None, lambda a: a.inv(),
            lambda a: ref.f64(ref.q2r(a.data[0])),
            [('UnitQuaternion.R', lambda a: a.R), ('UnitQuaternion.SO3', lambda a: a.SO3().A),
@@ -63,8 +72,10 @@ REPS = {
                 ('Twist3(SE3)', lambda a: sm().Twist3(a.SE3()).SE3().A)]),
     'UDQ': (lambda T: sm().UnitDualQuaternion(sm().SE3(T)), None, lambda a: a.conj(), udq_to_matrix,
             [('UnitDualQuaternion.SE3', lambda a: a.SE3().A)]),
-    'SO2': (lambda T: sm().SO2(T[:2, :2]), None, lambda a: a.inv(), lambda a: a.data[0], []),
-    'SE2': (lambda T: sm().SE2(T), None, lambda a: a.inv(), lambda a: a.data[0], []),
+    'SO2': (lambda T: sm().SO2(T[:2, :2]), None, lambda a: a.inv(), lambda a: a.data[0],
+            [('SO2 result.SE2()', lambda a: a.SE2().A[:2, :2]), ('SO2.Exp(SO2 result.log())', lambda a: sm().SO2.Exp(a.log(twist=True)).A)]),
+    'SE2': (lambda T: sm().SE2(T), None, lambda a: a.inv(), lambda a: a.data[0],
+            [('SE2 result.Twist2().SE2()', lambda a: a.Twist2().SE2().A), ('SE2.Exp(SE2 result.log())', lambda a: sm().SE2.Exp(a.log(twist=True)).A)]),
     'Twist2': (lambda T: sm().SE2(T).Twist2(), None, lambda a: a.inv(),
                lambda a: ref.f64(ref.exp_twist_ld(a.data[0])),
                [('Twist2.SE2', lambda a: a.SE2().A), ('Twist2.exp', lambda a: a.exp().A),
@@ -228,6 +239,38 @@ def run_shared(ctx, p):
         ctx.nontrivial('shared', name, sorted(kw.items()), core.J(args))
 
 
+def run_shared_multi(ctx, p):
+    """the shared axis-rotation constructors given N angles (list / tuple / array, either unit): N values in every class, value i
+    the rotation by angle i, the same in SO3, SE3, UnitQuaternion and Twist3"""
+    S = sm()
+    name, angles, unit, form = p['name'], [float(a) for a in p['angles']], p['unit'], p['form']
+    n = len(angles)
+    k = 180 / math.pi if unit == 'deg' else 1.0
+    given = gen.as_form(np.array(angles) * k, form)
+    axis = {'Rx': [1, 0, 0], 'Ry': [0, 1, 0], 'Rz': [0, 0, 1]}[name]
+    want = [ref.f64(ref.rot_ld(axis, a)) for a in angles]
+    for cname in ('SO3', 'SE3', 'UnitQuaternion', 'Twist3'):
+        C = getattr(S, cname)
+        sig = dict(api='%s.%s' % (cname, name), unit=unit, form=form, kind='sequence_form')
+        try:
+            X = getattr(C, name)(given, unit) if cname != 'Twist3' else getattr(C, name)(given, unit=unit)
+            if cname == 'UnitQuaternion':
+                got = [ref.f64(ref.q2r(q)) for q in X.data]
+            elif cname == 'Twist3':
+                got = [ref.f64(ref.exp_twist_ld(np.asarray(s_, dtype=np.float64)))[:3, :3] for s_ in X.data]
+            else:
+                got = [np.asarray(M, dtype=np.float64)[:3, :3] for M in X.data]
+        except Exception as e:
+            ctx.bad('shared_ctor', dict(sig, kind='raised', exc=type(e).__name__), '%s.%s(%d angles as %s, %s) raised %r' % (cname, name, n, form, unit, e))
+            continue
+        ok = type(X) is C and len(got) == n
+        d = max(float(np.max(np.abs(g - w))) for g, w in zip(got, want)) if ok else math.inf
+        ctx.judge('shared_ctor', d <= TOL, dict(sig, n=n if n in (3, 4) else 'other'),
+                  lambda: '%s.%s(%s as %s, %s): %d value(s), worst difference from the rotations by the given angles %.3g' % (cname, name, angles, form, unit, len(got), d))
+    ctx.cell('shared_multi', name, unit, form, n)
+    ctx.nontrivial('shared_multi', name, unit, form, [float('%.9g' % a) for a in angles])
+
+
 # ----------------------------------------------------------------------------- double cover and embeddings
 def run_doublecover(ctx, p):
     S = sm()
@@ -349,7 +392,7 @@ def run_halfturn_eq(ctx, p):
     ctx.nontrivial('halfturn_eq', which, np.round(ax, 9).tolist(), p.get('k'))
 
 
-RUNNERS = {'halfturn_eq': run_halfturn_eq, 'multirep': run_multirep, 'shared': run_shared, 'doublecover': run_doublecover, 'embed': run_embed}
+RUNNERS = {'shared_multi': run_shared_multi, 'halfturn_eq': run_halfturn_eq, 'multirep': run_multirep, 'shared': run_shared, 'doublecover': run_doublecover, 'embed': run_embed}
 
 
 def REACH():
@@ -402,6 +445,10 @@ def run(ctx):
     for _ in range(ctx.scale(1200, 30000)):
         nm, args, kw = ctors.rotation_ctor(rng, 'SO3')
         drive(RUNNERS, ctx, 'shared', dict(name=nm, args=args, kwargs=kw))
+    for _ in range(ctx.scale(150, 3000)):
+        n = int(rng.integers(2, 8))
+        drive(RUNNERS, ctx, 'shared_multi', dict(name=['Rx', 'Ry', 'Rz'][rng.integers(3)], angles=[gen.angle(rng) for _ in range(n)],
+                                                 unit=['rad', 'deg'][rng.integers(2)], form=['list', 'tuple', 'array'][rng.integers(3)]))
     for _ in range(ctx.scale(200, 4000)):
         drive(RUNNERS, ctx, 'doublecover', dict(q=gen.unit_quat(rng), other=gen.unit_quat(rng)))
         if rng.random() < 0.15:
